@@ -17,7 +17,45 @@ import (
 // text, so a replay file shows exactly what went over the wire.
 
 var plainSegs = []string{"a", "b", "repo", "x.y", "data", "_persist", "cache", "upload", "nginx",
-	"..a", "a..", "...", ".h", "v1:latest", "sha256", "a+b", "a b", "l2", "svc", "%2E%2E", "~"}
+	"..a", "a..", "...", ".h", "v1:latest", "sha256", "a+b", "a b", "l2", "svc", "%2E%2E", "~",
+	"upload.bak", "cache.bak", "upload2", "cache-old", "victim"}
+
+// Names of directories next to a store root, as seen from inside it: the other
+// services' directories, the two roots themselves, and names that only extend a
+// root's base name (existing ones from the sandbox, and ones that do not exist yet,
+// which a store that accepts them would create).
+var siblingBases = []string{"upload", "cache"}
+var siblingSuffixes = []string{".bak", "2", "-old", "s", "_tmp", "-x", ".d", "~", " ", "..", ".bak.1"}
+var siblingRests = []string{"", "", siblingEntry, siblingEntry, "x", "data", "evil/deep", siblingEntry + "/..", "."}
+
+// genSiblingName climbs out of a store root (one level; sometimes two and back down
+// through "svc") into a sibling directory, optionally naming an entry below it.
+func genSiblingName(t *rapid.T, real string) string {
+	var sib string
+	switch k := rapid.IntRange(0, 9).Draw(t, "sibkind"); {
+	case k < 5: // a sibling of the sandbox whose name starts with a root's base name
+		sib = rapid.SampledFrom(prefixSiblings).Draw(t, "sib")
+	case k < 8: // a root's base name plus a suffix (mostly not existing)
+		sib = rapid.SampledFrom(siblingBases).Draw(t, "base") + rapid.SampledFrom(siblingSuffixes).Draw(t, "suffix")
+	default: // unrelated siblings and the roots themselves
+		sib = rapid.SampledFrom([]string{"nginx", "localdb", "upload", "cache", "up", "c"}).Draw(t, "sib")
+	}
+	up := "../"
+	switch rapid.IntRange(0, 7).Draw(t, "upkind") {
+	case 0:
+		up = "../../svc/"
+	case 1:
+		up = "x/../../"
+	}
+	rest := rapid.SampledFrom(siblingRests).Draw(t, "rest")
+	if rest == "x" && real != "" && rapid.Bool().Draw(t, "restreal") {
+		rest = real
+	}
+	if rest == "" {
+		return up + sib
+	}
+	return up + sib + "/" + rest
+}
 
 func genDecodedName(t *rapid.T, real string) string {
 	sep := func() string {
@@ -26,7 +64,9 @@ func genDecodedName(t *rapid.T, real string) string {
 		}
 		return "/"
 	}
-	switch k := rapid.IntRange(0, 19).Draw(t, "namekind"); {
+	switch k := rapid.IntRange(0, 24).Draw(t, "namekind"); {
+	case k >= 20: // escapes into a sibling directory of the store root
+		return genSiblingName(t, real)
 	case k < 8: // dot-escape attempts
 		n := rapid.IntRange(1, 4).Draw(t, "ntok")
 		toks := make([]string, n)
@@ -151,7 +191,25 @@ type nameInfo struct {
 	dotSeg     bool // decoded name has a "." or ".." segment (separators "/" and "\")
 	escSep     bool // decoded name has a separator that was produced by an escape
 	exactUp    bool // decoded name is exactly ".."
+	sibPrefix  bool // a ".." segment is followed by a segment that extends a store root's base name ("upload.bak")
 	rawSlash   bool
+}
+
+// climbsToPrefixSibling reports whether a ".." segment of the decoded name is
+// directly followed by a segment that has a store root's base name as a proper prefix.
+func climbsToPrefixSibling(decoded string) bool {
+	segs := strings.FieldsFunc(decoded, func(r rune) bool { return r == '/' || r == '\\' })
+	for i := 1; i < len(segs); i++ {
+		if segs[i-1] != ".." {
+			continue
+		}
+		for _, b := range siblingBases {
+			if strings.HasPrefix(segs[i], b) && len(segs[i]) > len(b) {
+				return true
+			}
+		}
+	}
+	return false
 }
 
 func classifyName(raw string) nameInfo {
@@ -164,6 +222,7 @@ func classifyName(raw string) nameInfo {
 	ni.unescapeOK = true
 	ni.decoded = d
 	ni.exactUp = d == ".."
+	ni.sibPrefix = climbsToPrefixSibling(d)
 	for _, seg := range strings.FieldsFunc(d, func(r rune) bool { return r == '/' || r == '\\' }) {
 		if seg == "." || seg == ".." {
 			ni.dotSeg = true
@@ -191,6 +250,9 @@ func (ni nameInfo) classes(prefix string) []string {
 		out = append(out, prefix+"name:escaped-sep")
 	default:
 		out = append(out, prefix+"name:plain")
+	}
+	if ni.sibPrefix {
+		out = append(out, prefix+"name:climbs-to-prefix-sibling")
 	}
 	return out
 }
